@@ -105,10 +105,18 @@ _fcc_case = st.builds(lambda d, t, c: dict(dir="FCC", delim=d, text=t.replace(d,
 _rmb_case = st.builds(lambda n, spi: dict(dir="RMB", n=n, sp=A.spellings(n)[spi % len(A.spellings(n))][0]),
                       st.one_of(st.sampled_from(RMB_GRID[:10]), st.integers(0, 600), st.integers(0, 600), st.integers(0, 5000),
                                 st.integers(0, 5000), st.integers(0, 65535)), st.integers(0, 7))
-_nobyte_case = st.sampled_from([
+# no-byte directives with every kind of operand: literal, label (before / after), label expression, nothing
+NOBYTE = [
     dict(dir="EQU", operand="$1234", label="ZZE"), dict(dir="EQU", operand="5", label="ZZE"), dict(dir="ORG", operand="$1002"),
     dict(dir="SETDP", operand="$00"), dict(dir="SETDP", operand="0"), dict(dir="NAM", operand="MYPROG"), dict(dir="NAM", operand="x"),
-    dict(dir="END", operand=""), dict(dir="END", operand="ZZN"), dict(dir="INCLUDE", operand="empty.asm")])
+    dict(dir="END", operand=""), dict(dir="END", operand="ZZN"), dict(dir="INCLUDE", operand="empty.asm"),
+    dict(dir="EQU", operand="ZZN", label="ZZE"), dict(dir="EQU", operand="ZZA", label="ZZE"), dict(dir="EQU", operand="ZZN-ZZA", label="ZZE"),
+    dict(dir="EQU", operand="ZZA+1", label="ZZE"), dict(dir="EQU", operand="-1", label="ZZE"), dict(dir="EQU", operand="3*4", label="ZZE"),
+    dict(dir="SETDP", operand="ZZN"), dict(dir="SETDP", operand="ZZA"), dict(dir="SETDP", operand="ZZA/256"), dict(dir="SETDP", operand="ZZN/256"),
+    dict(dir="SETDP", operand="$10"), dict(dir="SETDP", operand="8+8"), dict(dir="SETDP", operand=""),
+    dict(dir="END", operand="ZZA"), dict(dir="END", operand="ZZA+1"), dict(dir="END", operand="$1000"),
+    dict(dir="NAM", operand="ZZA"), dict(dir="NAM", operand="ZZN"), dict(dir="ORG", operand="")]
+_nobyte_case = st.sampled_from(NOBYTE)
 
 
 def enumerated(tier, seed):
@@ -127,9 +135,7 @@ def enumerated(tier, seed):
     for n in RMB_GRID:
         for tag, _ in A.spellings(n):
             yield dict(dir="RMB", n=n, sp=tag)
-    for c in (dict(dir="EQU", operand="$1234", label="ZZE"), dict(dir="ORG", operand="$1002"), dict(dir="SETDP", operand="$00"),
-              dict(dir="NAM", operand="MYPROG"), dict(dir="END", operand=""), dict(dir="END", operand="ZZN"),
-              dict(dir="INCLUDE", operand="empty.asm")):
+    for c in NOBYTE:
         yield c
     yield from pair_cases()
 
